@@ -27,3 +27,9 @@ pub uninterp spec fn dec_u16(x: u16) -> Seq<char>;
 #[verifier::external_body]
 pub broadcast proof fn axiom_to_string_cow<'a>(t: &std::borrow::Cow<'a, str>, s: String)
     ensures #[trigger] vstd::string::to_string_from_display_ensures::<std::borrow::Cow<'a, str>>(t, s) <==> s@ == cow_text(*t) {}
+// HashMap::get_mut looked up with the key type itself (Q = K): the borrowed form of a key is the key (trusted; std semantics;
+// `borrowed_key_updated` is the uninterpreted relation of contracts/common/hash_str.rs's get_mut specification)
+#[verifier::external_body]
+pub broadcast proof fn axiom_same_key_updated<K, V>(m1: Map<K, V>, m2: Map<K, V>, k: &K, v: V)
+    ensures #[trigger] borrowed_key_updated::<K, V, K>(m1, m2, k, v) <==> (m1.contains_key(*k) && m2 == m1.insert(*k, v))
+{}
